@@ -799,7 +799,7 @@ def cfgAll : GCfg := { traits := allTraits, cmpAttrPct := 35, debugAttrPct := 25
 def cfgDump : GCfg := { cfgAll with dumpPct := 35 }
 def cfgStrip : GCfg := { traits := allTraits, cmpAttrPct := 45, debugAttrPct := 40, defaultAttrPct := 40, boundPct := 20,
                          foreignPct := 75, validBias := false }
-def cfgWild : GCfg := { cfgAll with validBias := false, trickyPct := 15, traits := allTraits ++ ["Foo", "Assign", "Index", "clone"] }
+def cfgWild : GCfg := { cfgAll with validBias := false, trickyPct := 15, traits := allTraits ++ ["Foo", "Assign", "Index", "clone", "r#Clone", "r#Ord"] }
 
 /-! ## Renaming identifiers throughout an item (raw-identifier parameter names) -/
 
